@@ -987,6 +987,33 @@ func (cx *Ctx) checkKeyPairChecked(r *Report) {
 	} else {
 		r.Fail("R-VFG", "ParseTlsKeyPair:checked-pair", "", "anchor not found")
 	}
+	// ... and every signing object the handlers make is made from that checked pair: a signing context or signer built
+	// straight from the key storage handed out signs whatever certificate came with it
+	n := 0
+	for _, hk := range []string{kSSO, kCallback, kLogout, kAttr, kMeta} {
+		vf := cx.vflow(hk)
+		if vf == nil {
+			continue
+		}
+		for _, ctor := range []struct {
+			name  string
+			idx   int
+			allow []string
+		}{
+			{"github.com/russellhaering/goxmldsig.NewSigningContext", 0, []string{"ext:tls.X509KeyPair#0*"}},
+			{"github.com/russellhaering/goxmldsig.NewDefaultSigningContext", 0, []string{"ext:tls.X509KeyPair#0"}}, // (dsig.TLSCertKeyStore is a conversion of the pair)
+			{"github.com/amdonov/xmlsig.NewSignerWithOptions", 0, []string{"ext:tls.X509KeyPair#0"}},
+			{"github.com/amdonov/xmlsig.NewSigner", 0, []string{"ext:tls.X509KeyPair#0"}},
+		} {
+			ls, sites := vf.CallArgSources(matchCallee(ctor.name), ctor.idx)
+			if len(sites) == 0 {
+				continue
+			}
+			n++
+			r.checkSources("R-VFG", shortCallee(ctor.name)+":checked-pair@"+hk, w.InstrPos(sites[0]), ls, ctor.allow, nil, false)
+		}
+	}
+	r.Check(n >= 3, "R-VFG", "signing-objects:#sites", "", fmt.Sprintf("%d constructions of signing objects reached from the handlers", n), fmt.Sprintf("only %d constructions of signing objects found", n))
 }
 
 // checkNoIndentedEncoding: signed messages are serialised exactly as they were signed - no Encoder.Indent /
